@@ -19,7 +19,7 @@ func init() {
 	Registry["C10"] = Spec{
 		Fn:          c10,
 		Level:       "fault_enumeration",
-		Rule:        "scenarios of C04 plus the handshake; for every gate of a fault-free pilot run (before/after each client write, before each server packet, inside each callback, at each internal hook point) the caller's context is cancelled (or its deadline made to pass) at that gate; additionally the server stalls after k bytes of each packet (mid-packet silence, k sampled over the stream) and the context is cancelled during the stall; a context already done before the call; a peer that stops reading (blocked write); default and short read timeouts. Oracle: the call returns (stuck-state evidence: reader blocked with no deadline armed while the context is done), the error matches the context's error, a Cancel packet - if written - is the single byte 03 in its own Write call, the connection is closed exactly once, at most one further server packet is begun after the cancel instant, no library goroutine outlives the call. Non-trivial = the cancellation took effect before the scenario would have completed; distinct = (scenario, gate, action)",
+		Rule:        "scenarios of C04 plus the handshake; for every gate of a fault-free pilot run (before/after each client write, before each server packet, inside each callback, at each internal hook point) the caller's context is cancelled (or its deadline made to pass) at that gate; additionally the server stalls after k bytes of each packet (mid-packet silence, k sampled over the stream) and the context is cancelled during the stall; a context already done before the call; a peer that stops reading (blocked write); short, default (3 s) and disabled (NoTimeout) read timeouts. Oracle: the call returns (stuck-state evidence: reader blocked with no deadline armed while the context is done), the error matches the context's error, a Cancel packet is written whenever the transport is healthy (cancel / deadline / stall plans) and is the single byte 03 in its own Write call, the connection is closed exactly once, at most one further server packet is begun after the cancel instant, no library goroutine outlives the call. Non-trivial = the cancellation took effect before the scenario would have completed; distinct = (scenario, gate, action)",
 		Assumptions: []string{"prompt = returns within the read timeout (100 ms here) plus a generous wall-clock watchdog (10 s) whose firing alone is inconclusive; it becomes a violation only together with stuck-state evidence (context done, reader blocked without deadline, nothing queued)"},
 		MinDistinct: 200,
 	}
@@ -127,15 +127,19 @@ func c10One(r *core.Run, sc scn, seed int64, f *fault) {
 		}
 	}
 	var o *runOut
+	desc0 := ""
 	switch f.Kind {
 	case "stall", "blocked-write":
 		o = runStall(sc, seed, f)
 		cancelAt = o.FiredWall
 	default:
-		o = runScenario(sc, seed, f, 100*time.Millisecond, mk)
+		// read timeouts: short, the library default (Options.ReadTimeout = 0) and none at all
+		rt := []time.Duration{100 * time.Millisecond, 0, ch.NoTimeout}[int(hashStrings([]string{sc.Name, f.String()})%3)]
+		desc0 = fmt.Sprintf("read timeout %v", rt)
+		o = runScenario(sc, seed, f, rt, mk)
 	}
 	r.Eval()
-	desc := map[string]any{"scenario": sc.Name, "fault": f.String(), "seed": seed}
+	desc := map[string]any{"scenario": sc.Name, "fault": f.String(), "seed": seed, "options": desc0}
 	fail := func(class, msg string) {
 		r.Violation(class, fmt.Sprintf("%s [scenario %s, %s]", msg, sc.Name, f), desc)
 	}
@@ -210,6 +214,10 @@ func c10One(r *core.Run, sc scn, seed int64, f *fault) {
 		fail("cancel-packet-repeated", fmt.Sprintf("%d Cancel packets written", cancelWrites))
 	}
 	r.Count("cancel_packets_seen", int64(cancelWrites))
+	if cancelWrites == 0 && (f.Kind == "cancel" || f.Kind == "deadline" || f.Kind == "stall") {
+		// best effort means: written whenever the transport accepts writes, which it does in these plans
+		fail("no-cancel-packet:"+f.Kind, fmt.Sprintf("the query was cancelled on a healthy transport (%s) but no Cancel packet was written before the connection was closed", desc0))
+	}
 	if leaked := leakedLibraryGoroutines(); len(leaked) > 0 {
 		fail("goroutine-leak:"+f.Kind, fmt.Sprintf("%d library goroutines outlive the call:\n%s", len(leaked), clipS(leaked[0])))
 	}
